@@ -9,7 +9,7 @@ VERIF = os.path.dirname(os.path.dirname(os.path.abspath(__file__)))
 CLAIMED = {
     "C01": dict(
         cat="model_checking", ref="DESIGN.md §7 C01",
-        technique="TLC trace validation of recorded call/return histories against the abstract-map TLA+ spec (Trace_Lin) + TLC exhaustive check of the implementation-shaped spec",
+        technique="TLC trace validation of recorded call/return histories against the abstract-map TLA+ spec (Trace_Lin) + TLC exhaustive check of the implementation-shaped spec (Flurry.tla) + step-level conformance: Flurry.tla's own actions replayed by TLC along the recorded stream of shared-memory accesses (Trace_Flurry)",
         text="Every explored execution of the real crate (programs of 2-4 threads over 11 initial table shapes, scheduled at "
              "shared-access granularity by the cooperative scheduler, plus real-thread runs) yields a call/return history that TLC "
              "accepts against the abstract map specification: some linearization explains every result and the final lookups. "
@@ -18,7 +18,7 @@ CLAIMED = {
              "exploration). Bounded: sampled schedules on the real code; exhaustive only on the model."),
     "C08": dict(
         cat="model_checking", ref="DESIGN.md §7 C08",
-        technique="TLC trace validation (Trace_Lin with closure-argument and invocation-count conditions)",
+        technique="TLC trace validation (Trace_Lin with closure-argument and invocation-count conditions) + step-level conformance with Flurry.tla (Trace_Flurry: the critical section of compute is one specification action)",
         text="compute_if_present-heavy programs on one or two keys; the monitor additionally requires the value handed to the "
              "closure to be the linearized current value, at most one invocation per call and exactly one if the key is present.",
         note="As C01."),
@@ -34,7 +34,7 @@ CLAIMED.update({
         note="Trusted: TLC/SANY, the harness's observation code. Bounded: sampled sequences (small key universe), not all."),
     "C05": dict(
         cat="model_checking", ref="DESIGN.md §7 C05",
-        technique="TLC evaluation of the TLA+ predicate QuiescentOK (Trace_Quiescent) on inspector snapshots + iter/get/len results recorded at quiescent points",
+        technique="TLC evaluation of the TLA+ predicate QuiescentOK (Trace_Quiescent) on inspector snapshots + iter/get/len results recorded at quiescent points; QuiescentOK / GhostOK also evaluated on executions replayed through Flurry.tla (Trace_Flurry)",
         text="Every quiescent observation (after each step of sequential runs; after all threads of scheduled concurrent programs with "
              "resizes, helpers, tree conversions, clears joined) is checked by TLC: iteration = lookups = len, every entry where its "
              "hash is searched, no duplicate, no forwarding marker / next table / negative size_ctl, power-of-two length, nothing locked.",
@@ -70,7 +70,7 @@ CLAIMED.update({
 CLAIMED.update({
     "C10": dict(
         cat="model_checking", ref="DESIGN.md §7 C10",
-        technique="TLC trace validation of recorded resize site events against the resize-protocol monitor (Trace_Resize); scripted critical schedules; TLC exhaustive check of the resize protocol in the implementation-shaped spec",
+        technique="TLC trace validation of recorded resize site events against the resize-protocol monitor (Trace_Resize); scripted critical schedules; TLC exhaustive check of the resize protocol in the implementation-shaped spec; step-level conformance: every size_ctl / transfer_index / table / bin access of recorded resizes replayed through Flurry.tla with ResizeSafe evaluated on the replayed states (Trace_Flurry)",
         text="2-4 scheduled threads across one or more resize generations (tables of 2..64 bins, inserts / reserve / overfull small bins / "
              "writers hitting forwarding markers) plus scripted scenarios; TLC checks on the recorded site events: a resize starts only on "
              "the current table when none is open, helpers join the open resize with its own tables, each bin is forwarded once, exactly "
@@ -131,7 +131,7 @@ CLAIMED.update({
         note="As C03."),
     "C06": dict(
         cat="model_checking", ref="DESIGN.md §7 C06",
-        technique="TLC evaluation of the red-black / link-consistency invariants (Trace_RB) on inspector dumps of every tree bin after every step, plus Eq/Ord call counts of lookups",
+        technique="the red-black algorithms of node.rs transcribed into TLA+ (TreeBinOps): TLC checks the invariants on every insertion/removal sequence (TreeBinRB) and replays every recorded sequential step of the real tree bins through the transcription, demanding the identical structure (Trace_RBStep); invariants also evaluated on inspector dumps of concurrent runs (Trace_RB), plus Eq/Ord call counts of lookups",
         text="Insertion/removal sequences over up to 60 keys with equal hashes, four hash classes per bin and resize splits, plus concurrent "
              "writers: after every step TLC checks on the real links: ordered by (hash,key), black root, no red-red, equal black height, "
              "parent/child and prev/next consistency, list set = tree set; lookups of present and absent keys stay within 4*ceil(log2(n+1))+2 "
